@@ -78,26 +78,6 @@ def node_name(nd):
     return ":".join(str(a) for a in nd[:2] if isinstance(a, str))
 
 
-def first_wrong_domain(I, mr, prog, ops):
-    """kind of the first node whose nifty operator has not the keys its parts have"""
-    free = []
-    for i, nd in enumerate(prog["nodes"]):
-        if nd[0] == "var":
-            fr = {nd[1]}
-        elif nd[0] == "vars":
-            fr = set(nd[1])
-        elif nd[0] == "subst":
-            fr = (free[nd[1]] - {nd[2]}) | free[nd[3]]
-        else:
-            fr = set().union(*[free[j] for j in mr.Gen.children(nd)])
-        free.append(fr)
-        op = ops[i]
-        if nd[0] != "vars" and isinstance(op.domain, I.MultiDomain) \
-                and set(op.domain.keys()) != fr:
-            return node_name(nd)
-    return opkey(prog)
-
-
 def culprit(I, mr, prog, x, wm):
     """first node (in program order) whose own value/Jacobian already disagrees with the
     mirror: names the mechanism in the violation key"""
@@ -181,7 +161,7 @@ def case(ck, i):
     F = ops[-1]
     dom = mr.input_domain(I, prog)
     if F.domain is not dom:
-        ck.violation("domain:" + first_wrong_domain(I, mr, prog, ops), "operator domain is not "
+        ck.violation("domain:" + mr.first_wrong_domain(I, prog, ops), "operator domain is not "
                      "the union of the domains of its parts", got=str(F.domain), want=str(dom))
         return
     xf = mr.np_to_field(I, dom, xvals)
